@@ -5,7 +5,7 @@ from rules import common
 
 CLAIMED = True
 TECHNIQUE = "static analysis over type-checked MIR: guarded-table extraction of the unit->multiplier / unit->variant decision chains with constant folding, checked-arithmetic inventory with None-edge reachability, sign/range guard dominance for every integer cast of a deserialised value"
-LEVEL_TEXT = """Static, all-paths decision of: (L1) the size unit table extracted from the compare chain of the size visitor: b->x1, kb/kib->1024, mb/mib->1024^2, gb/gib->1024^3, tb/tib->1024^4 (constants folded), compared case-insensitively, unknown unit -> Err; (L2) every multiplication is u64::checked_mul whose None edge reaches an Err return (no *, wrapping_*, saturating_*); (L3) digits/unit split at the first non-ASCII-digit with trim on both parts, number through str::parse::<u64>/<i64> with the Err edge reaching Err, bare number -> bytes/seconds, and visit_i64 returns Err on the dominating v < 0 edge in both visitors; (L4) every integer cast applied to a deserialised value in the two visitors is dominated by a range guard; (L5) interval unit table second(s)->Second ... year(s)->Year, singular and plural in one alias group, case-insensitive, unknown -> Err; (L6) refresh_rate goes through humantime::parse_duration with its error mapped to a serde error. The numeric behaviour of std's parse/checked_mul and of humantime is trusted."""
+LEVEL_TEXT = """Static, all-paths decision of: (L1) the size unit table extracted from the compare chain of the size visitor: b->x1, kb/kib->1024, mb/mib->1024^2, gb/gib->1024^3, tb/tib->1024^4 (constants folded), compared case-insensitively, unknown unit -> Err; (L2) every multiplication is u64::checked_mul whose None edge reaches an Err return (no *, wrapping_*, saturating_*); (L3) digits/unit split at the first non-ASCII-digit with trim on both parts, number through str::parse::<u64>/<i64> with the Err edge reaching Err, bare number -> bytes/seconds, and visit_i64 returns Err on the dominating v < 0 edge in both visitors; (L4) every integer cast applied to a deserialised value in the two visitors is dominated by a range guard; (L5) interval unit table second(s)->Second ... year(s)->Year, singular and plural in one alias group, case-insensitive, unknown -> Err; (L6) refresh_rate goes through humantime::parse_duration with its error mapped to a serde error. The numeric behaviour of std's parse/checked_mul and of humantime is trusted. (L8, cont.) visit_u64/visit_i64 return the integer itself (bytes / Second(v)); (L3, cont.) a string without a unit is Second(the parsed number) with no arithmetic on it; (L9a-c) the three visitors implement the documented entry points only, any other visit_* being a plain hand-over of its argument to one of them."""
 LEVEL_NOTE = "Trusted: rustc MIR/callee resolution; core::str::parse, u64::checked_mul, str::eq_ignore_ascii_case, humantime::parse_duration; serde's visitor dispatch."
 EXPLANATION = """Decided: L1 multiplier table, L2 checked multiplication with rejecting None edge, L3 split/trim/parse/sign guards, L4 cast inventory under range guards, L5 interval unit table, L6 refresh_rate via humantime. Undecided: nothing of substance beyond the trusted std/humantime parsers."""
 DECIDED = ["L1 size unit table", "L2 overflow checked", "L3 number parsing and sign guards", "L4 guarded casts", "L5 interval unit table", "L6 refresh_rate via humantime"]
@@ -252,11 +252,13 @@ def rule_size_overflow(ctx, p, cfg, rid="L2"):
 
 
 
-def rule_integer_forms(ctx, p, cfg, rid="L8"):
+def rule_integer_forms(ctx, p, cfg, rid="L8", only=None):
     """A limit / interval written as a bare integer reaches the visitor as u64 or as i64 depending on the file format (TOML
     hands every integer over as i64): both entry points accept every non-negative value and agree on it."""
     with ctx.rule(rid, "bare integers are accepted however the format hands them over", cfg) as r:
         for who, pre in (("size", SIZE_V), ("interval", TIME_V)):
+            if only and who != only:
+                continue
             for m in ("visit_u64", "visit_i64"):
                 if not p.has_fn(pre + m):
                     r.fail("%s:%s-present" % (who, m), detail="%s is not implemented: the format that uses it cannot give a bare integer" % m)
@@ -279,6 +281,92 @@ def rule_integer_forms(ctx, p, cfg, rid="L8"):
                                 tt = si.target_of(True)
                                 okedge = tt is not None and any(b == tt or b in h.reach(tt) for b in oks)
                     r.require(okedge, "%s:non-negative-i64-accepted" % who, fn=h, detail="visit_i64 returns Ok on the v >= 0 edge")
+                # ... and what it returns is the number itself: so many bytes, so many seconds (not a coarser unit, not a scaled value)
+                if oks:
+                    pay = [_payload(e) for b, e in q.ret_assignments(h) if q.classify_ret(e) == "ok"]
+                    if who == "size":
+                        same = all(x is not None and _uncast(x) == ("param", 2) for x in pay)
+                    else:
+                        same = all(x is not None and x[0] == "agg" and x[1] == INTERVAL and x[2] == "Second" and _uncast(dict(x[3]).get("0")) == ("param", 2) for x in pay)
+                    r.require(same, "%s:%s-is-the-number" % (who, m), fn=h, detail="%s(v) returns %s" % (m, "v bytes" if who == "size" else "Second(v)"),
+                              fail_detail="%s::%s does not return the integer it was given as %s: %s" % (who, m, "a byte count" if who == "size" else "a number of seconds", [show(x, 4) if x else None for x in pay]))
+
+
+def _uncast(e):
+    """the integer under value-preserving conversions: `as` between integer types (the range guards are C20.L4's business) and the
+    success value of a checked conversion (`i64::try_from(v)` -> Ok(n))"""
+    e = deep_strip(e) if e is not None else None
+    while isinstance(e, tuple) and e:
+        if e[0] == "cast" and e[1] == "IntToInt":
+            e = deep_strip(e[2])
+        elif e[0] == "field" and e[2] == "0" and e[1][0] == "as" and e[1][2] == "Ok" and deep_strip(e[1][1])[0] == "call" and \
+                deep_strip(e[1][1])[1].rsplit("::", 1)[-1] in ("try_from", "try_into") and len(deep_strip(e[1][1])[2]) == 1:
+            e = deep_strip(deep_strip(e[1][1])[2][0])
+        else:
+            break
+    return e
+
+
+def _is_parsed_number(x):
+    """(parse(..) as Ok).0 - the parsed integer itself, also behind `?` and `map_err` (which leave the success value alone)"""
+    if not (isinstance(x, tuple) and x[0] == "field" and x[2] == "0" and x[1][0] == "as" and x[1][2] in ("Ok", "Continue")):
+        return False
+    c = deep_strip(x[1][1])
+    while c[0] == "call" and c[1].rsplit("::", 1)[-1] in ("branch", "map_err") and c[2]:
+        c = deep_strip(c[2][0])
+    return c[0] == "call" and c[1].endswith("::parse")
+
+
+def _payload(e):
+    e = deep_strip(e)
+    if e[0] == "agg" and e[2] == "Ok":
+        return deep_strip(dict(e[3]).get("0"))
+    return None
+
+
+FINDERS = ("find", "rfind", "position", "rposition", "split_once", "find_map", "char_indices", "strip_suffix", "split_at_checked")
+
+
+def bare_number(r, fn_, who, want):
+    """the string form without a unit: the size is the number of bytes, the interval that many seconds.  Wherever the visitor
+    decides "is there a unit" - the switch on what its search for the first non-digit returned - the edge on which nothing was
+    found is followed with its flags and tuples; every Ok return it reaches must be the parsed number itself (as Second(n) for
+    the interval)."""
+    heads = []
+    for blk in fn_.blocks:
+        if blk["term"]["k"] == "switch" and blk["id"] in fn_.reachable_blocks():
+            si = SwitchInfo(fn_, blk["id"])
+            d = strip(si.discr)
+            if d[0] != "discr":
+                continue
+            c = deep_strip(d[1])
+            if c[0] == "call" and c[1].rsplit("::", 1)[-1] in FINDERS and c[2] and any(x == ("param", 2) for x in walk(c[2][0])) and si.target_of("None") is not None:
+                heads.append(si)
+    heads = [si for si in heads if not any(o is not si and fn_.dominates(o.b, si.b) for o in heads)]
+    if len(heads) != 1:
+        raise ShapeUnrecognised("%s: the decision between 'number with a unit' and 'bare number' (a switch on the result of the search for the first non-digit) was found %d times in visit_str" % (who, len(heads)))
+    si = heads[0]
+    rets = {}
+    for b, e in q.ret_assignments(fn_):
+        rets.setdefault(b, []).append(e)
+    ok_blocks_ = {b for b, es in rets.items() if any(q.classify_ret(e) == "ok" for e in es)}
+    cut = {(si.b, t) for lab, t in si.labelled_edges() if lab != "None"}
+    # from the entry, so that what was computed before the decision (a default built eagerly for `map_or`) is known on the way
+    reached = q.const_skipping_paths(fn_, 0, set(), ok_blocks_, cut_edges=cut)
+    pays = [_payload(e) for b in sorted(reached) for e in rets[b] if q.classify_ret(e) == "ok"]
+    if want:
+        ok = bool(pays) and all(x is not None and x[0] == "agg" and x[1] == INTERVAL and x[2] == want and _is_parsed_number(_uncast(dict(x[3]).get("0"))) for x in pays)
+    else:
+        ok = bool(pays) and all(x is not None and _is_parsed_number(_uncast(x)) for x in pays)
+    r.require(ok, "%s:bare-number" % who, fn=fn_, detail="no unit -> %s" % [show(x, 4) if x else None for x in pays],
+              fail_detail="%s: a number without a unit does not come back as %s: %s" % (who, "Second(that number)" if want else "that number of bytes", [show(x, 5) if x else None for x in pays]))
+
+
+def rule_interval_number(ctx, p, cfg, rid):
+    """An interval written as a bare number - integer or string - is that many seconds (L8 and L3 re-evaluated for the interval)."""
+    rule_integer_forms(ctx, p, cfg, rid, only="interval")
+    with ctx.rule(rid + "s", "a number without a unit is a number of seconds", cfg) as r:
+        bare_number(r, p.fn_unrolled(TIME_V + "visit_str"), "interval", "Second")
 
 
 def run_cfg(ctx, p, cfg):
@@ -301,19 +389,7 @@ def run_cfg(ctx, p, cfg):
         split_and_parse(r, g, "interval", "i64")
         # bare number
         for who, fn_, want in (("size", f, None), ("interval", g, "Second")):
-            for blk in fn_.blocks:
-                if blk["term"]["k"] == "switch" and blk["id"] in fn_.reachable_blocks():
-                    si = SwitchInfo(fn_, blk["id"])
-                    d = strip(si.discr)
-                    if d[0] == "discr" and d[1][0] == "phi" and any(x[0] == "agg" and x[2] == "None" for x in d[1][1]) and any(x[0] == "agg" and x[2] == "Some" and deep_strip(dict(x[3]).get("0", ("?",)))[0] == "call" and deep_strip(dict(x[3])["0"])[1].endswith("::trim") for x in d[1][1]):
-                        nt = si.target_of("None")
-                        tb = [t[0] for t in tables.string_key_tests(fn_)]
-                        rr = fn_.reach(nt, avoid=set(tb), include_src=True)
-                        rets = [e for b, e in q.ret_assignments(fn_) if b in rr]
-                        ok = bool(rets) and all(q.classify_ret(e) == "ok" for e in rets)
-                        if ok and want:
-                            ok = all(any(x[0] == "agg" and x[1] == INTERVAL and x[2] == want for x in walk(e)) for e in rets)
-                        r.require(ok, "%s:bare-number" % who, fn=fn_, detail="no unit -> %s" % [show(e, 4) for e in rets])
+            bare_number(r, fn_, who, want)
         # sign guards
         for who, path in (("size", SIZE_V + "visit_i64"), ("interval", TIME_V + "visit_i64")):
             h = p.fn(path)
@@ -402,6 +478,10 @@ def run_cfg(ctx, p, cfg):
             r.require(only_err_from(g, ft), "unknown-unit-rejected", fn=g, detail="fall-through reaches only Err")
         r.floor("unit-keys", len(tab), 14)
 
+    from rules import common
+    common.rule_visitor_entry_points(ctx, p, cfg, "L9a", "trigger::size::deserialize_limit::V", ("visit_u64", "visit_i64", "visit_str"), "size limit")
+    common.rule_visitor_entry_points(ctx, p, cfg, "L9b", "trigger::time::TimeTriggerInterval", ("visit_u64", "visit_i64", "visit_str"), "interval")
+    common.rule_visitor_entry_points(ctx, p, cfg, "L9c", "config::raw::de_duration::", ("visit_str",), "refresh_rate")
     with ctx.rule("L6", "refresh_rate via humantime", cfg) as r:
         vs = [f for f in p.fns.values() if f.path.startswith("<<config::raw::de_duration::") and f.path.endswith("::visit_str")]
         r.require(len(vs) == 1, "duration-visitor", detail="de_duration string visitor: %s" % [f.path for f in vs])
